@@ -10,7 +10,8 @@ PROPERTY = "C16"
 RULE = ("1 qubit: V = product of 1-4 arbitrary 2x2 unitaries (haar blocks), named gates and rotations; 2 qubits: "
         "products of 1-5 single-qubit unitaries, CZ/CNOT in both orientations (post-selected and heralded) and SWAP; "
         "V is computed by plain Kronecker algebra, never from lightworks. The experiment callback returns the exact "
-        "heralded, dual-rail post-selected outcome weights of each requested circuit/input (own permanent). Oracle: "
+        "heralded, dual-rail post-selected outcome weights of each requested circuit/input (own permanent; for LI and "
+        "gate fidelity optionally with a different total per circuit), 0-2 extra callback arguments. Oracle: "
         "LI choi == choi_from_unitary(V) entry-wise (1e-8) and fidelity 1 (1e-6); MLE choi Hermitian, min eigenvalue "
         ">= -1e-6, trace-preserving (1e-3), process_fidelity and reported fidelity in [0.99, 1+1e-3]; "
         "GateFidelity.process(V) = 1 and process(W) = (|tr W^dagger V|^2 + d)/(d(d+1)) (1e-8) for generated targets "
